@@ -150,6 +150,19 @@ def check_bin_guard(ctx, func, label, trace, who):
 
 
 def check(ctx):
+    from ..model import AnalysisError
+    from ..absint import Unsupported
+    r_concrete(ctx)
+    try:
+        _symbolic(ctx)
+    except (AnalysisError, Unsupported) as e:
+        # a concrete counterexample stands on its own; without one the run fails closed
+        if all(o.ok for o in ctx.obs):
+            raise
+        ctx.note("symbolic decision not available on this tree (%s); the concrete scenario already shows a violation" % e)
+
+
+def _symbolic(ctx):
     proj = ctx.proj
     it = interp_for(ctx)
     mq = require_func(ctx, "helpers.make_query")
@@ -160,7 +173,8 @@ def check(ctx):
         "part is compiled to a predicate over (f.start, f.end, S, E) as bound by the argument list and compared with "
         "the specification on a grid that is complete for order predicates (all weak orderings). The bin restriction "
         "is accepted only on paths whose guards exclude bins()'s fallback domain (read off bins.bins). Stored-bin "
-        "provenance is a def-use rule. Does not decide results for concrete feature sets.")
+        "provenance is a def-use rule. In addition a concrete family of features on every bin level and beyond 2**29 is imported into the "
+        "model database and every region / limit form is evaluated for all query intervals over the boundary points.")
     n_part = 0
     # ---------------------------------------------------------- make_query
     for (ln, lim) in limit_options()[1:]:
@@ -296,6 +310,100 @@ def check(ctx):
     ctx.extra["partitions"] = n_part
     ctx.exhaustive = True
     _r3_bin_provenance(ctx)
+
+
+def r_concrete(ctx):
+    """Concrete scenario: a small family of features placed on the bin boundaries and around 2**29 is imported (the stored
+    bins are what the package's own bins() gives), then region() -- every argument form -- and the limit= form of
+    all_features / features_of_type / children / parents are evaluated against the model database for every query interval
+    over the boundary points; the returned ids are compared with the specification, each feature at most once."""
+    from . import scen
+    consts = bins_consts(ctx)
+    M = consts["MAX_CHROM_SIZE"]
+    B = 1 << consts.get("FIRST_SHIFT", 17)
+    rg = require_func(ctx, "interface.FeatureDB.region")
+    # (id, start, end, strand, type, parent)
+    F = [("a", 100, 200, "+", "gene", None), ("b", B - 72, B + 28, "+", "exon", "d"), ("c", B + 1, B + 8, "-", "exon", "d"), ("d", 1, (B << 3) + 5, "+", "gene", None),
+         ("e", M - 10, M + 10, "+", "exon", "d"), ("f", M + 100, M + 200, "+", "exon", None), ("g", B, B, "+", "exon", "d"), ("h", B - 1, B - 1, "-", "exon", None),
+         ("i", (B << 3) - 1, (B << 3) + 1, "+", "exon", "d"), ("j", (B << 6) - 1, (B << 6) + 1, "-", "exon", None), ("k", (B << 9) - 1, (B << 9) + 1, "+", "exon", None),
+         ("l", M - 1, M - 1, "+", "exon", None), ("m", 2 * B + 10, 2 * B + 20, "+", "exon", "d")]
+    lines = [scen.feature(n.upper(), ft, s_, e_, dict({"ID": [n]}, **({"Parent": [par]} if par else {})), strand=st) for n, s_, e_, st, ft, par in F]
+    lines.sort(key=lambda x: x.attrs["attributes"].get("Parent") is not None)        # parents first
+    lines.append(scen.feature("Z", "gene", 100, 200, {"ID": ["z"]}, seqid="chr2"))
+    im, t = scen.run_create(ctx, "_GFFDBCreator", lines)
+    if not scen.returned(ctx, t, "create()", func=rg, rule="R1"):
+        return
+    it, me, conn, t0 = scen.open_feature_db(ctx, im.db)
+    if not scen.returned(ctx, t0, "FeatureDB(dbfn)", func=rg, rule="R1"):
+        return
+    it.summaries["interface.FeatureDB._feature_returner"] = lambda i, pos, kw, node: kw.get("id")
+    rec = {n: (s_, e_, st, ft, par) for n, s_, e_, st, ft, par in F}
+    on1 = sorted(rec)
+    pts = sorted({1, 99, 100, 150, 200, 201, B - 73, B - 72, B - 2, B - 1, B, B + 1, B + 8, B + 9, B + 28, B + 29, 2 * B, 2 * B + 15, (B << 3) - 1, (B << 3), (B << 3) + 5,
+                  (B << 3) + 6, (B << 6), (B << 9) + 1, M - 11, M - 10, M - 2, M - 1, M, M + 1, M + 10, M + 11, M + 99, M + 150, M + 201})
+    if ctx.tier != "thorough":
+        pts = [x for x in pts if x in (1, 100, 201, B - 72, B - 1, B, B + 1, B + 29, (B << 3), (B << 3) + 6, M - 10, M - 1, M, M + 11, M + 150)]
+    spec_both = SPEC
+    n_q = [0]
+    bad = {}
+
+    def ask(qual, label, want_lo, want_hi, **kw):
+        """want_lo <= result <= want_hi (sets of ids); equal sets = exact."""
+        n_q[0] += 1
+        tr = scen.call_method(ctx, it, me, qual, **kw)
+        if tr.result[0] != "return":
+            got = "raises %s" % (tr.result[1],)
+        else:
+            r_ = tr.result[1]
+            got = list(r_) if not isinstance(r_, (list, tuple)) else list(r_)
+        if isinstance(got, list) and (len(set(got)) != len(got)):
+            bad.setdefault(label + ": a feature is returned more than once", (kw, got, sorted(want_hi)))
+        elif not isinstance(got, list) or not (set(want_lo) <= set(got) <= set(want_hi)):
+            bad.setdefault(label, (kw, sorted(got) if isinstance(got, list) else got, sorted(want_hi) if want_lo == want_hi else (sorted(want_lo), sorted(want_hi))))
+
+    def both(S_, E_, within, ids):
+        return {n for n in ids if spec_both[("both", within)]({"fs": rec[n][0], "fe": rec[n][1], "S": S_, "E": E_})}
+    kids = {n for n in rec if rec[n][4] == "d"}
+    for i_, S_ in enumerate(pts):
+        for E_ in pts[i_:]:
+            for within in (False, True):
+                w = both(S_, E_, within, on1)
+                mode = "within" if within else "overlap"
+                ask("interface.FeatureDB.region", "region(seqid, start, end), %s" % mode, w, w, seqid="chr1", start=S_, end=E_, completely_within=within)
+                ask("interface.FeatureDB.all_features", "all_features(limit=(seqid, start, end)), %s" % mode, w, w, limit=("chr1", S_, E_), completely_within=within)
+                ask("interface.FeatureDB.children", "children(id, limit=...), %s" % mode, w & kids, w & kids, id="d", limit=("chr1", S_, E_), completely_within=within)
+                if (S_ + E_) % 3 == 0 or ctx.tier == "thorough":
+                    ask("interface.FeatureDB.region", "region((seqid, start, end)), %s" % mode, w, w, region=("chr1", S_, E_), completely_within=within)
+                    ask("interface.FeatureDB.region", "region('seqid:start-end'), %s" % mode, w, w, region="chr1:%d-%d" % (S_, E_), completely_within=within)
+                    wz = w | ({"z"} if spec_both[("both", within)]({"fs": 100, "fe": 200, "S": S_, "E": E_}) else set())
+                    ask("interface.FeatureDB.region", "region(start, end) on every seqid, %s" % mode, wz, wz, start=S_, end=E_, completely_within=within)
+                    ws = {n for n in w if rec[n][2] == "-"}
+                    ask("interface.FeatureDB.region", "region(..., strand='-'), %s" % mode, ws, ws, seqid="chr1", start=S_, end=E_, strand="-", completely_within=within)
+                    wt = {n for n in w if rec[n][3] == "gene"}
+                    ask("interface.FeatureDB.region", "region(..., featuretype='gene'), %s" % mode, wt, wt, seqid="chr1", start=S_, end=E_, featuretype="gene", completely_within=within)
+                    ask("interface.FeatureDB.features_of_type", "features_of_type(type, limit='seqid:start-end'), %s" % mode, w - wt, w - wt, featuretype="exon",
+                        limit="chr1:%d-%d" % (S_, E_), completely_within=within)
+                    pw = {"d"} & w
+                    ask("interface.FeatureDB.parents", "parents(id, limit=...), %s" % mode, pw, pw, id="c", limit=("chr1", S_, E_), completely_within=within)
+                    probe = scen.feature("Q", "probe", S_, E_, {}, strand="-")
+                    ask("interface.FeatureDB.region", "region(Feature), %s" % mode, w, w, region=probe, completely_within=within)
+    for x in pts:
+        for within in (False, True):
+            for b_, kw in (("S", {"start": x}), ("E", {"end": x})):
+                lo_f, hi_f = SANDWICH[(b_, within)]
+                env = lambda n: {"fs": rec[n][0], "fe": rec[n][1], b_: x}
+                lo = {n for n in on1 if lo_f(env(n))}
+                hi = {n for n in on1 if hi_f(env(n))}
+                ask("interface.FeatureDB.region", "region(seqid, %s only), %s" % ("start" if b_ == "S" else "end", "within" if within else "overlap"), lo, hi,
+                    seqid="chr1", completely_within=within, **kw)
+    w = set(on1)
+    ask("interface.FeatureDB.region", "region(seqid only)", w, w, seqid="chr1")
+    ask("interface.FeatureDB.region", "region('seqid')", {"z"}, {"z"}, region="chr2")
+    ctx.ob("R1", not bad, "region / limit queries return exactly the overlapping (or contained) stored features, each once: %d queries over %d boundary points x forms "
+           "x modes on a model database holding features on every bin level and beyond 2**29" % (n_q[0], len(pts)), func=rg,
+           sig="concrete region/limit queries agree with the specification" if not bad else "; ".join(
+               "%s: %s returns %s, specified %s" % (k, {a: (v if not isinstance(v, Opaque) else v.name) for a, v in q.items()}, g, wnt) for k, (q, g, wnt) in sorted(bad.items())[:3]))
+    ctx.extra["concrete_queries"] = n_q[0]
 
 
 def _check_bins(ctx, func, trace, bins_, label, who, bounds=frozenset({"S", "E"})):
